@@ -130,7 +130,7 @@ class Interp:
         if obj in OPFUNCS:
             return VFunc('op', name=OPFUNCS[obj])
         if isinstance(obj, (types.BuiltinFunctionType, types.MethodDescriptorType,
-                            types.BuiltinMethodType)):
+                            types.BuiltinMethodType, types.WrapperDescriptorType)):
             return VFunc('builtin', name=getattr(obj, '__name__', repr(obj)), obj=obj)
         if isinstance(obj, types.MethodType):
             return VFunc('bound', self=self.lift(obj.__self__), func=self.lift(obj.__func__))
@@ -212,7 +212,7 @@ class Interp:
         return VList(self._elts(node.elts, env))
 
     def e_Set(self, node, env):
-        return VSet(self._elts(node.elts, env))
+        return self.B.make_set(self, self._elts(node.elts, env))
 
     def _elts(self, elts, env):
         out = []
@@ -488,8 +488,10 @@ class Interp:
             # exact on None / str / int-like; uninterpreted (but reflexive on identical terms) elsewhere
             simple = lambda t: z3.Or(PyVal.is_PNone(t), PyVal.is_PS(t), int_like(t))
             ieq = z3.If(z3.And(int_like(x), int_like(y)), int_of(x) == int_of(y), x == y)
+            from .builtins import isnan_f
+            # identical terms compare equal except float NaN (the only builtin with x != x)
             return z3.If(z3.And(simple(x), simple(y)), ieq,
-                         z3.If(x == y, z3.BoolVal(True), PyVal.b(binop(OP['eq'], x, y))))
+                         z3.If(x == y, z3.Not(z3.And(PyVal.is_PF(x), isnan_f(x))), PyVal.b(binop(OP['eq'], x, y))))
         return veq(a, b)
 
     def contains(self, container, item):
@@ -911,6 +913,13 @@ class Interp:
                     kwargs = {}
                 except KeyError:
                     pass
+        if qual == 'contracts.specs.sanitize_name':
+            from .model import PyVal
+            san_f = z3.Function('san_f', PyVal, PyVal)
+            a = args[0] if args else kwargs['name']
+            r = san_f(to_pyval(a))
+            self.ex.ctx.add(z3.Or(PyVal.is_PNone(r), PyVal.is_PS(r)))
+            return VAny(r)
         if qual == 'contracts.specs.hash_elem':
             from .model import hash_f
             a = args[0] if args else kwargs['x']
